@@ -9,3 +9,10 @@ pub use state::{
     ContextStatus, ContextSummary, JobStatus, JobSummary, OutputViewMode, Overlay, TaskSummary,
     ThemeId, ToolStatus, ToolSummary, TuiState,
 };
+
+/// Verification hook (compiled only with `--cfg rip_verif`): the timeline's summary functions, so an
+/// external harness can compare them with its model on arbitrary frames.
+#[cfg(rip_verif)]
+pub mod verif {
+    pub use crate::summary::{event_summary, event_type};
+}
